@@ -133,7 +133,7 @@ CLAUSE_RE = re.compile(r"^\[([A-Za-z0-9_.,\- ]+)\]\s*(.*)$", re.S)
 
 
 class Group:
-    def __init__(self, name, features=None, disabled_hints=None):
+    def __init__(self, name, features=None, disabled_hints=None, extra_items=None):
         self.name = name
         self.path = os.path.join(VERIF, "groups", name + ".rs")
         self.features = list(ALL_FEATURES) if features is None else features
@@ -143,6 +143,7 @@ class Group:
         self.rewrites = []     # log
         self.lost = []         # lost optional anchors
         self.global_rewrites = []  # (regex, repl)
+        self.extra_items = list(extra_items or [])
         self.srcs = {}
         self.trusted = []      # names of assumed items (external_body / assume_specification) collected later
         self.spec_hash = hashlib.sha256()
@@ -274,6 +275,14 @@ class Group:
             ln = lines[i]
             st = ln.strip()
             if not st.startswith("//@"):
+                if depth == 0 and st.startswith("} // verus!"):
+                    # constants of the repo that changed code refers to but no contract names: pulled in on demand
+                    for relf, ipath in self.extra_items:
+                        try:
+                            self.emit_item(relf, ipath, [], "auto-item", 0)
+                            self.rewrites.append({"rule": "auto-item", "item": "%s::%s" % (relf, ipath)})
+                        except Undecided:
+                            pass
                 self.out.emit(ln, {"kind": "tmpl", "file": rel, "line": i + 1})
                 i += 1
                 continue
@@ -354,6 +363,12 @@ class Group:
         text = self.prep_text(it.text, log)
         for d, arg, dl in subs:
             text = self.apply_replace(d, arg, text, "%s::%s" % (relf, ipath), log)
+        if ipath.startswith("const "):
+            # elided lifetimes of reference-typed constants are 'static (Verus wants them written out)
+            text2 = re.sub(r"(const\s+\w+\s*:\s*)&(?!\s*')", r"\1&'static ", text)
+            if text2 != text:
+                log.append({"rule": "const-static-lifetime"})
+                text = text2
         text = publicise(text, True)
         log.append({"rule": "R10-visibility"})
         # a byte-string constant becomes an exec const whose contract states its bytes (taken from the source literal)
